@@ -164,6 +164,30 @@ MOTIFS = {
     'M22b_oneof_consumer_needed_by_late_nested_oneof': spec([
         node(0), node(1), node(2), node(3, [('a', one(1, 2))]), node(4, fails=FAIL), node(5, [('a', inp(3))]), node(6),
         node(7, [('a', one(5, 6))]), node(8, [('a', one(4, 7)), ('b', inp(3))])]),
+    # a switch with a falsy label (a boolean switch), selected / not selected; the falsy case is shared with the output
+    'M23_falsy_label_selected': spec([
+        node(0), node(1, body={'kind': 'label', 'v': ''}), node(2), node(3), node(4, [('a', sw(1, [('', 2), ('l1', 3)]))]),
+        node(5, [('a', inp(4)), ('b', inp(2))])]),
+    'M23b_falsy_label_not_selected': spec([
+        node(0), node(1, body={'kind': 'label', 'v': 'l1'}), node(2), node(3), node(4, [('a', sw(1, [('', 2), ('l1', 3)]))])]),
+    # candidate 1 fails on a node J that the selected case of a switch in candidate 2 depends on as well: the case sub-DAG
+    # contains the error before it starts
+    'M24_case_depends_on_node_that_failed_the_previous_candidate': spec([
+        node(0), node(1, body=LAB), node(2, fails=FAIL), node(3, [('a', inp(2))]), node(4, [('a', inp(2))]),
+        node(5, [('a', sw(1, [('l0', 3)]))]), node(6), node(7, [('a', one(4, 5, 6))])]),
+    # a recurrent subgraph with a side branch inside the first candidate gives up in the second iteration; the side branch
+    # is an ancestor of the next candidate
+    'M25_rec_in_candidate_side_branch_needed_by_next_candidate': spec([
+        node(0), node(1, has_additional=True), node(2, [('a', inp(1))], fails=[[1, 1, 'E0']]), node(3, [('a', inp(2))]),
+        node(4, [('a', inp(1))]), node(5, [('a', inp(4))]),
+        node(6, [('a', inp(3)), ('b', inp(5))], is_rec=True, recur_k=1), node(7, [('a', rec(1, 6, 2))]),
+        node(8, [('a', inp(5))]), node(9, [('a', one(7, 8))])]),
+    # a recurrent subgraph with a switch inside, inside a one-of candidate; the label matches no case in the second iteration
+    'M26_switch_in_rec_in_candidate_label_becomes_unknown': spec([
+        node(0), node(1, has_additional=True), node(2, [('a', inp(1))], body={'kind': 'labels', 'v': ['l0', 'unknown']}),
+        node(3), node(4, [('a', sw(2, [('l0', 3)]))]),
+        node(5, [('a', inp(4))], is_rec=True, recur_k=1), node(6, [('a', rec(1, 5, 2))]), node(7),
+        node(8, [('a', one(6, 7))])]),
     # a recurrent destination with a consumer next to another branch
     'M6_rec_then_join': spec([
         node(0), node(1, has_additional=True), node(2, [('a', inp(1))], is_rec=True, recur_k=2),
@@ -217,6 +241,21 @@ MOTIFS = {
         node(0), node(1, body=LAB), node(2), node(3), node(4, [('a', sw(1, [('l0', 2), ('l1', 3)]))]),
         node(5, [('a', inp(4))]), node(6, [('a', inp(5)), ('b', inp(0))])]),
 }
+
+
+def _with_cb(sp, cb):
+    sp = dict(sp)
+    sp['cb'] = cb
+    return sp
+
+
+# a join of two siblings while a collaborator of one of them is suspended (event manager in on_node_complete / on_node_start,
+# artifact store in save): the other sibling completes in between
+_JOIN = spec([node(0), node(1, [('a', inp(0))]), node(2, [('a', inp(0))]), node(3, [('a', inp(1)), ('b', inp(2))])])
+MOTIFS['M27_join_while_on_node_complete_is_suspended'] = _with_cb(_JOIN, {'ncomplete': {'1': 3}})
+MOTIFS['M27b_join_while_save_is_suspended'] = _with_cb(_JOIN, {'save': {'1': 3}})
+MOTIFS['M27c_join_while_on_node_start_is_suspended'] = _with_cb(_JOIN, {'nstart': {'1': 2}, 'ncomplete': {'2': 1}})
+MOTIFS['M27d_output_save_is_suspended'] = _with_cb(_JOIN, {'save': {'3': 2, '1': 1}, 'pcomplete': 1})
 
 
 def wide_spec(w, modes=('coro',)):
